@@ -89,15 +89,16 @@ HasFreeSlot == \E p \in Slots : slot[p].id = 0
 
 \* onClose: everything that was waiting for session i completes (the user of a request that
 \* completes late is not tracked: "")
-DieCmps(i) ==
+DieCmps(i, sl) ==
   [j \in 1..tab[i].pdel |-> Cmp("DELETE", "", i, "", "live", 204, 0, FALSE, FALSE)]
   \o [j \in 1..tab[i].phung |-> Cmp("POST", "call", i, "", "live", 200, 0, FALSE, FALSE)]
-  \o [j \in 1..Cardinality({p \in Slots : slot[p].id = i /\ slot[p].hung}) |->
+  \o [j \in 1..Cardinality({p \in Slots : sl[p].id = i /\ sl[p].hung}) |->
          Cmp("POST", "slow", i, "", "live", 200, 0, FALSE, FALSE)]
-Die(i, first) ==
+DieWith(i, first, sl) ==
   /\ tab' = [tab EXCEPT ![i] = DeadSess(tab[i].owner)]
-  /\ slot' = [p \in Slots |-> IF slot[p].id = i THEN FreeSlot ELSE slot[p]]
-  /\ res' = first \o DieCmps(i)
+  /\ slot' = [p \in Slots |-> IF sl[p].id = i THEN FreeSlot ELSE sl[p]]
+  /\ res' = first \o DieCmps(i, sl)
+Die(i, first) == DieWith(i, first, slot)
 
 Init == /\ tab = [i \in Ids |-> FreeSess] /\ nmint = 0 /\ slot = [p \in Slots |-> FreeSlot]
         /\ tiewin = FALSE /\ res = <<>> /\ ranNow = 0 /\ bad = FALSE
@@ -157,7 +158,7 @@ StatelessPost(body, tgt, user) ==   \* ephemeral session per request; the id hea
   /\ body \in {"init", "call", "slow"}
   /\ IF body = "slow"
      THEN /\ HasFreeSlot
-          /\ slot' = [slot EXCEPT ![SmallestFree] = [id |-> Unknown, hung |-> FALSE, tie |-> FALSE]]
+          /\ slot' = [slot EXCEPT ![SmallestFree] = [id |-> IF tgt = NoId THEN -2 ELSE Unknown, hung |-> FALSE, tie |-> FALSE]]
           /\ res' = <<>> /\ ranNow' = 1
      ELSE /\ res' = <<Cmp("POST", body, tgt, user, Class(tgt, user), 200, 0, FALSE, body = "call")>>
           /\ ranNow' = (IF body = "call" THEN 1 ELSE 0) /\ UNCHANGED slot
@@ -211,15 +212,18 @@ EndPost(p) ==
   /\ ranNow' = 0 /\ UNCHANGED nmint
   /\ LET i == slot[p].id IN
      IF Stateless
-     THEN /\ res' = <<Cmp("POST", "slow", NoId, "", "none", 200, 0, FALSE, TRUE)>>
+     THEN /\ res' = <<Cmp("POST", "slow", IF i = -2 THEN NoId ELSE Unknown, "", "none", 200, 0, FALSE, TRUE)>>
           /\ slot' = [slot EXCEPT ![p] = FreeSlot] /\ UNCHANGED tab
-     ELSE LET s1 == EndPOST([tab[i] EXCEPT !.run = tab[i].run - 1])
-              c  == Cmp("POST", "slow", i, "", "live", 200, 0, FALSE, TRUE) IN
-          IF s1.st = "closing" /\ s1.run = 0
-          THEN Die(i, <<c>>)
-          ELSE /\ tab' = [tab EXCEPT ![i] = s1]
-               /\ slot' = [slot EXCEPT ![p] = FreeSlot]
-               /\ res' = <<c>>
+     ELSE IF tab[i].st = "closing"
+     THEN \* the connection is shutting down: the tool's response is dropped and its POST stays open
+          \* until the session is gone
+          LET sl == [slot EXCEPT ![p].hung = TRUE] IN
+          IF tab[i].run = 1 THEN DieWith(i, <<>>, sl)
+          ELSE /\ tab' = [tab EXCEPT ![i].run = @ - 1]
+               /\ slot' = sl /\ res' = <<>>
+     ELSE /\ tab' = [tab EXCEPT ![i] = EndPOST([tab[i] EXCEPT !.run = tab[i].run - 1])]
+          /\ slot' = [slot EXCEPT ![p] = FreeSlot]
+          /\ res' = <<Cmp("POST", "slow", i, "", "live", 200, 0, FALSE, TRUE)>>
 
 -----------------------------------------------------------------------------
 \* time
